@@ -281,4 +281,178 @@ Proof.
   - destruct (run_file_fails ts c0) as [_ B]. simpl in B. exact B.
 Qed.
 
+(* ---------------------------------------------------------------- describe groups and hooks *)
+Notation group := (group scope body).
+Notation item := (item scope body).
+Notation grp_scopes := (grp_scopes scope logline istate body run_body).
+Notation grp_tests := (grp_tests scope logline istate body run_body).
+Notation run_item := (run_item scope logline istate body run_body init).
+Notation run_items := (run_items scope logline istate body run_body init).
+Notation run_hook := (run_hook scope logline istate body run_body).
+
+Definition omap3 {A B} (c : counter) (r : option (A * B * counter)) : option (A * B * counter) :=
+  match r with Some (a, b, d) => Some (a, b, cadd c d) | None => None end.
+
+Lemma run_hook_split h s σ c :
+  run_hook h s σ c = omap3 c (run_hook h s σ c0).
+Proof.
+  unfold run_hook. destruct h as [b|]; simpl.
+  - destruct (run_body s b σ) as [[[k v] lg] σ']. destruct v; simpl; auto.
+    f_equal. f_equal. apply counter_eq; simpl; lia.
+  - rewrite cadd_c0. reflexivity.
+Qed.
+
+Lemma grp_scopes_split g t ss : forall σ c,
+  grp_scopes g t ss σ c = omap3 c (grp_scopes g t ss σ c0).
+Proof.
+  induction ss as [|s r IH]; intros σ c; simpl.
+  - rewrite cadd_c0. reflexivity.
+  - destruct (t_skip t).
+    + rewrite (IH σ (c_skip c)), (IH σ (c_skip c0)).
+      destruct (grp_scopes g t r σ c0) as [[[cs σ'] d]|]; simpl; auto.
+      f_equal. f_equal. apply counter_eq; simpl; lia.
+    + rewrite (run_hook_split _ s σ c).
+      destruct (run_hook (g_before g s) s σ c0) as [[[lg0 σ0] d0]|]; simpl; auto.
+      destruct (run_body s (t_body t) σ0) as [[[k v] lg] σ1].
+      match goal with |- context [run_hook (g_after g s) s σ1 ?cc] =>
+        rewrite (run_hook_split _ s σ1 cc) end.
+      match goal with |- _ = omap3 c (match run_hook (g_after g s) s σ1 ?cc with _ => _ end) =>
+        rewrite (run_hook_split _ s σ1 cc) end.
+      destruct (run_hook (g_after g s) s σ1 c0) as [[[lg2 σ2] d2]|]; simpl; auto.
+      match goal with |- context [grp_scopes g t r σ2 ?cc] => rewrite (IH σ2 cc) end.
+      match goal with |- _ = omap3 c (match grp_scopes g t r σ2 ?cc with _ => _ end) => rewrite (IH σ2 cc) end.
+      destruct (grp_scopes g t r σ2 c0) as [[[cs σ'] d]|]; simpl; auto.
+      f_equal. f_equal. destruct v; apply counter_eq; simpl; lia.
+Qed.
+
+Lemma grp_tests_split g ts : forall σ c,
+  grp_tests g ts σ c = omap3 c (grp_tests g ts σ c0).
+Proof.
+  induction ts as [|t r IH]; intros σ c; simpl.
+  - rewrite cadd_c0. reflexivity.
+  - rewrite (grp_scopes_split g t (t_scopes t) σ c).
+    destruct (grp_scopes g t (t_scopes t) σ c0) as [[[cs1 σ1] d1]|]; simpl; auto.
+    rewrite (IH σ1 (cadd c d1)), (IH σ1 d1).
+    destruct (grp_tests g r σ1 c0) as [[[cs2 σ2] d2]|]; simpl; auto.
+    f_equal. f_equal. apply counter_eq; simpl; lia.
+Qed.
+
+(* what one item of the file yields on its own: its cases and what it adds to the counters, or
+   [None] when one of its hooks raises (then `falco test` fails as a whole, whatever else is there) *)
+Definition item_res (i : item) : option (list (gcase scope logline) * counter) := run_item i c0.
+Definition item_ok (i : item) : bool := match item_res i with Some _ => true | None => false end.
+Definition item_cases (i : item) : list (gcase scope logline) :=
+  match item_res i with Some (cs, _) => cs | None => [] end.
+Definition item_delta (i : item) : counter :=
+  match item_res i with Some (_, d) => d | None => c0 end.
+
+Lemma run_item_split i c :
+  run_item i c = match item_res i with Some (cs, d) => Some (cs, cadd c d) | None => None end.
+Proof.
+  unfold item_res. destruct i as [t|g]; simpl.
+  - rewrite (run_test_split t c), (run_test_split t c0). simpl.
+    replace (cadd c0 (delta_of t)) with (delta_of t) by (apply counter_eq; simpl; lia). reflexivity.
+  - rewrite (grp_tests_split g (g_tests g) init c).
+    destruct (grp_tests g (g_tests g) init c0) as [[[cs σ'] d]|]; simpl; auto.
+Qed.
+
+Theorem run_items_by_item is : forall c,
+  run_items is c =
+  if forallb item_ok is then Some (flat_map item_cases is, cadd c (csum (map item_delta is))) else None.
+Proof.
+  induction is as [|i r IH]; intros c; simpl.
+  - rewrite cadd_c0. reflexivity.
+  - rewrite run_item_split. unfold item_ok, item_cases, item_delta.
+    destruct (item_res i) as [[cs d]|]; simpl; auto.
+    rewrite IH. fold item_ok. destruct (forallb item_ok r); auto.
+    rewrite cadd_assoc. reflexivity.
+Qed.
+
+(* an ungrouped test is an item whose cases are [cases_of t]: a function of t alone *)
+Theorem single_item t :
+  item_ok (ISingle t) = true /\ item_cases (ISingle t) = map (fun x => (None, x)) (cases_of t).
+Proof.
+  unfold item_ok, item_cases, item_res. simpl. rewrite (run_test_split t c0). simpl. auto.
+Qed.
+
+Lemma forallb_perm {A} (f : A -> bool) l l' : Permutation l l' -> forallb f l = forallb f l'.
+Proof.
+  induction 1; simpl; auto.
+  - congruence.
+  - destruct (f x), (f y); auto.
+  - congruence.
+Qed.
+
+(* order independence with groups: ungrouped tests and WHOLE groups can be permuted freely:
+   whether the run fails as a whole, the multiset of cases and the counters stay the same *)
+Theorem items_order_independent is is' :
+  Permutation is is' ->
+  match run_items is c0, run_items is' c0 with
+  | Some (cs, c), Some (cs', c') => Permutation cs cs' /\ c = c'
+  | None, None => True
+  | _, _ => False
+  end.
+Proof.
+  intros HP. rewrite !run_items_by_item. rewrite (forallb_perm item_ok _ _ HP).
+  destruct (forallb item_ok is'); auto. split.
+  - apply Permutation_flat_map; auto.
+  - f_equal. apply csum_perm. apply Permutation_map; auto.
+Qed.
+
+(* and every item contributes exactly [item_cases i], wherever it stands *)
+Theorem items_subset_independent is i cs c :
+  run_items is c0 = Some (cs, c) -> In i is ->
+  exists before after, cs = before ++ item_cases i ++ after.
+Proof.
+  rewrite run_items_by_item. destruct (forallb item_ok is); [|discriminate].
+  intros H Hin. inversion H; subst. apply in_split in Hin. destruct Hin as (l1 & l2 & ->).
+  rewrite flat_map_app. simpl. eauto.
+Qed.
+
 End RunnerP.
+
+(* ---------------------------------------------------------------- the runner only looks at run_body pointwise *)
+Section Ext.
+Variable scope logline istate body : Type.
+Variables rb rb' : scope -> body -> istate -> nat * verdict * list logline * istate.
+Variable init : istate.
+Hypothesis rb_eq : forall s b σ, rb s b σ = rb' s b σ.
+
+Lemma run_scopes_ext t ss : forall σ c,
+  run_scopes scope logline istate body rb t ss σ c = run_scopes scope logline istate body rb' t ss σ c.
+Proof.
+  induction ss as [|s r IH]; intros σ c; simpl; auto.
+  destruct (t_skip t); [rewrite IH; reflexivity|].
+  rewrite rb_eq. destruct (rb' s (t_body t) σ) as [[[k v] lg] σ']. rewrite IH. reflexivity.
+Qed.
+
+Lemma grp_scopes_ext g t ss : forall σ c,
+  grp_scopes scope logline istate body rb g t ss σ c = grp_scopes scope logline istate body rb' g t ss σ c.
+Proof.
+  assert (HK : forall h s σ c, run_hook scope logline istate body rb h s σ c = run_hook scope logline istate body rb' h s σ c).
+  { intros [b|] s σ c; simpl; auto. rewrite rb_eq. reflexivity. }
+  induction ss as [|s r IH]; intros σ c; simpl; auto.
+  destruct (t_skip t); [rewrite IH; reflexivity|].
+  rewrite HK. destruct (run_hook scope logline istate body rb' (g_before g s) s σ c) as [[[lg0 σ0] d0]|]; auto.
+  rewrite rb_eq. destruct (rb' s (t_body t) σ0) as [[[k v] lg] σ1].
+  rewrite HK. match goal with |- match ?X with _ => _ end = _ => destruct X as [[[lg2 σ2] d2]|]; auto end.
+  rewrite IH. reflexivity.
+Qed.
+
+Theorem run_items_ext is : forall c,
+  run_items scope logline istate body rb init is c = run_items scope logline istate body rb' init is c.
+Proof.
+  induction is as [|i r IH]; intros c; simpl; auto.
+  assert (E : run_item scope logline istate body rb init i c = run_item scope logline istate body rb' init i c).
+  { destruct i as [t|g]; simpl.
+    - unfold run_test. rewrite run_scopes_ext. reflexivity.
+    - assert (G : forall ts σ c, grp_tests scope logline istate body rb g ts σ c = grp_tests scope logline istate body rb' g ts σ c).
+      { induction ts as [|t r' IHt]; intros σ c1; simpl; auto. rewrite grp_scopes_ext.
+        destruct (grp_scopes scope logline istate body rb' g t (t_scopes t) σ c1) as [[[cs1 σ1] d1]|]; auto.
+        rewrite IHt. reflexivity. }
+      rewrite G. reflexivity. }
+  rewrite E. destruct (run_item scope logline istate body rb' init i c) as [[cs1 c1]|]; auto.
+  rewrite IH. reflexivity.
+Qed.
+
+End Ext.
